@@ -26,9 +26,10 @@ class EigHooks(GslHooks):
         self.witness = None   # concrete values of the component symbols (a member of the class), for order comparisons
         self.witness_used = 0
         self.nsolve = 0
+        self.real_tags = set()  # solver calls made with the real-symmetric routine (eigenvectors have no imaginary part)
 
     @staticmethod
-    def family(data, V, n):
+    def family(data, V, n, real_tags=None):
         """(family, tag, permutation) if the vector holds the symbols <family><tag><pi(k)> and column k of V is column
         pi(k) of the matching eigenvector symbols; None otherwise.  family 'L' = as the solver returned them, 'LS' =
         after the trusted ascending sort"""
@@ -68,6 +69,8 @@ class EigHooks(GslHooks):
                     want = CPoly(Poly.var('VR%s_%d_%d' % (fam[1], r, perm[k])), Poly.var('VI%s_%d_%d' % (fam[1], r, perm[k])))
                 else:
                     want = CPoly(Poly.var('W%sR%s_%d_%d' % (fam[0], fam[1], r, perm[k])), Poly.var('W%sI%s_%d_%d' % (fam[0], fam[1], r, perm[k])))
+                if e is not None and not e.equals(want) and real_tags and fam[1] in real_tags and e.re.equals(want.re) and e.im.is_zero():
+                    continue
                 if e is None or not e.equals(want):
                     return (fam[0], fam[1], perm, 'column %d of the eigenvector matrix is not the eigenvector of eigenvalue %d (entry (%d,%d) is %s)' % (k, k, r, k, e))
         return (fam[0], fam[1], perm)
@@ -134,6 +137,33 @@ class EigHooks(GslHooks):
                 for c in range(V.n2):
                     V.entries[(r, c)] = CPoly(Poly.var('VR%s_%d_%d' % (tag, r, c)), Poly.var('VI%s_%d_%d' % (tag, r, c)))
             return 0
+        if name in ('gsl_eigen_symmv_alloc', 'gsl_eigen_herm_alloc', 'gsl_eigen_symm_alloc'):
+            n = it.eval(args[0])
+            r = Region('ws', 1, None, 'heap', {'ws': n})
+            r.cell(0).value = Obj(name[:-6] + '_workspace')
+            r.cell(0).value.field('size').value = n
+            return Ptr(r, 0)
+        if name in ('gsl_eigen_symmv_free', 'gsl_eigen_herm_free', 'gsl_eigen_symm_free'):
+            return None
+        if name == 'gsl_eigen_symmv':
+            # the trusted real-symmetric solver: same contract as the Hermitian one, for the real matrix it is given
+            vals = [it.eval(a) for a in args]
+            m = matrix_of(vals[0])
+            self.nsolve += 1
+            tag = '' if self.nsolve == 1 else '_%d' % self.nsolve
+            self.real_tags.add(tag)
+            self.calls.append(('gsl_eigen_hermv', self.entries_of(m), vals[1], vals[2], vals[3], it.loc(node)))
+            o, data, n = self.vec_of(it, vals[1], node)
+            for k in range(n):
+                data.cell(k).value = Poly.var('L%s%d' % (tag, k))
+            V = matrix_of(vals[2])
+            for r in range(V.n1):
+                for c in range(V.n2):
+                    V.entries[(r, c)] = CPoly(Poly.var('VR%s_%d_%d' % (tag, r, c)), 0)
+            return 0
+        if name in ('gsl_eigen_symmv_sort',):
+            vals = [it.eval(a) for a in args]
+            raise Unsupported('gsl_eigen_symmv_sort is not summarised at %s' % it.loc(node))
         if name == 'gsl_eigen_hermv_sort':
             vals = [it.eval(a) for a in args]
             self.calls.append(('gsl_eigen_hermv_sort', vals[0], vals[1], vals[2], it.loc(node)))
@@ -141,7 +171,7 @@ class EigHooks(GslHooks):
             # type 0); applied to anything else it is not summarised
             o, data, n = self.vec_of(it, vals[0], node)
             V = matrix_of(vals[1])
-            fam = self.family(data, V, n)
+            fam = self.family(data, V, n, self.real_tags)
             if fam is None and self.nsolve == 0:
                 return 0  # values the path built itself (no solver call): the call is recorded, the contents are judged as built
             if fam is None or fam[0] != 'L' or fam[2] != list(range(n)):
@@ -297,11 +327,18 @@ def eigen_witnesses(d):
             for tag in ('', '_2', '_3'):
                 w[('v', 'L%s%d' % (tag, k))] = Poly.const(base[o[k]])
         out.append(w)
-    w = {}
-    for k in range(d):
-        for tag in ('', '_2', '_3'):
-            w[('v', 'L%s%d' % (tag, k))] = Poly.const(base[min(k, d - 2)] if k != 0 else base[d - 1])  # the last two tie, the largest first
-    out.append(w)
+    # instances with exactly repeated eigenvalues (projectors, multiples of the identity): the last two tie with the
+    # largest first; all equal; two groups of equal values, the larger group first
+    ties = [[base[min(k, d - 2)] if k != 0 else base[d - 1] for k in range(d)],
+            [base[0]] * d,
+            [base[1] if k < (d + 1) // 2 else base[0] for k in range(d)],
+            [base[0] if k % 2 else base[1] for k in range(d)]]
+    for vals in ties:
+        w = {}
+        for k in range(d):
+            for tag in ('', '_2', '_3'):
+                w[('v', 'L%s%d' % (tag, k))] = Poly.const(vals[k])
+        out.append(w)
     return out
 
 
@@ -328,7 +365,7 @@ def judge_path(db, rep, unit, f, d, klass, order, zero, content, S, wit, nbad, s
         if nbad:
             rep.notes.append('%s: path not interpretable (%s); closed-form sites already reported' % (site, str(e)[:120]))
             return
-        if 'order is not decidable' in str(e) or 'comparison of' in str(e):
+        if 'order is not decidable' in str(e) or 'comparison of' in str(e) or 'numeric value expected' in str(e):
             raise Undecided(str(e))
         raise
     solver = [c for c in hooks.calls if c[0] == 'gsl_eigen_hermv']
@@ -352,7 +389,7 @@ def judge_path(db, rep, unit, f, d, klass, order, zero, content, S, wit, nbad, s
         if any(not isinstance(data.cell(k).value, Poly) for k in range(d)):
             if solver and wit is None:
                 raise Undecided('eigenvalues depend on a data-dependent branch')
-        fam = EigHooks.family(data, V, d)
+        fam = EigHooks.family(data, V, d, hooks.real_tags)
     if solver:
         # outputs of the trusted solver, possibly copied, possibly permuted (consistently): which call, on which matrix
         if fam is None:
@@ -454,7 +491,7 @@ def run(db, rep, tier):
         diag_slots = [k for k in range(d * d) if all(r == c or lam[k][r][c].is_zero() for r in range(d) for c in range(d))]
         re_slots = [i * d + j for i in range(d) for j in range(i + 1, d)]  # real parts of the off-diagonal entries
         im_slots = [j * d + i for i in range(d) for j in range(i + 1, d)]  # their imaginary parts
-        for klass in ('dense', 'diagonal', 'imaginary off-diagonal only', 'real off-diagonal only'):
+        for klass in ('dense', 'diagonal', 'imaginary off-diagonal only', 'real off-diagonal only', 'imaginary parts in the last row and column only'):
             for order in (0, 1):
                 n += 1
                 site = 'GetEigenSystem/%d/%s/order=%d' % (d, klass, order)
@@ -465,6 +502,8 @@ def run(db, rep, tier):
                     zero = set(re_slots)
                 elif klass == 'real off-diagonal only':
                     zero = set(im_slots)
+                elif klass == 'imaginary parts in the last row and column only':
+                    zero = set(j * d + i for i in range(d) for j in range(i + 1, d) if j != d - 1)
                 content = lambda k, z=zero: Poly.const(0) if k in z else Poly.var('a%d' % k)
                 # first without a concrete instance; a path that compares input-dependent numbers itself (ordering a
                 # diagonal matrix, or the eigenvalues the solver returned) is then run on concrete instances: several
@@ -487,4 +526,4 @@ def run(db, rep, tier):
                             except Undecided as u2:
                                 rep.break_('%s: cannot be judged even on a concrete instance (%s)' % (psite, str(u2)[:120]))
                                 break
-    rep.floor('G.eig.path', n, 40)
+    rep.floor('G.eig.path', n, 50)
